@@ -227,7 +227,11 @@ func raiseIndexOutOfBounds(opts *options, value value, idx int) Error {
 
 func raiseInvalidTopLevelType(v interface{}, meta *Meta) Error {
 	// could be developers or user fault
-	t := chaseTypePointers(chaseValue(reflect.ValueOf(v)).Type())
+	// (a nil interface has no type to name)
+	var t reflect.Type
+	if val := chaseValue(reflect.ValueOf(v)); val.IsValid() {
+		t = chaseTypePointers(val.Type())
+	}
 	message := fmt.Sprintf("type '%v' is not supported on top level of config, only dictionary or list", t)
 	return raiseErr(ErrTypeMismatch, messageMeta(message, meta))
 }
